@@ -47,9 +47,11 @@ def gen(rng, tier, escalate):
         ops = []
         if t % 5 == 0:
             for _ in range(rng.randint(1, 4)):
-                ops.append([rng.choice(["insert", "append", "delete", "atf"]), rng.randint(0, 20), rng.choice([" new", "top", "  deep", "", "banner motd ^", "^"])])
-        cases.append({"syntax": rng.choice(SYNS), "ibl": (not ops) and rng.random() < 0.4, "delims": rng.choice([["!"], ["#"], ["!", "#"]]),
-                      "lines": lines, "ops": ops, "kind": "rnd"})
+                ops.append([rng.choice(["insert", "append", "delete", "atf"]), rng.randint(0, 20), rng.choice([" new", "top", "  deep", "", "banner motd ^", "^", "   ", " "])])
+        # with edits: ignore_blank_lines in a third of the cases (whitespace-only payloads are then dropped by the commit), and
+        # the edit's own auto-commit is the only commit in half of the cases (a second commit could repair stale links)
+        cases.append({"syntax": rng.choice(SYNS), "ibl": rng.random() < (0.3 if ops else 0.4), "delims": rng.choice([["!"], ["#"], ["!", "#"]]),
+                      "lines": lines, "ops": ops, "kind": "rnd", "extra_commit": rng.random() < 0.5})
     for t in range(nrand // 5):
         cases.append({"syntax": "junos", "ibl": False, "delims": ["#"], "lines": _brace_cfg(rng), "ops": [], "kind": "brace"})
     return cases
@@ -95,7 +97,8 @@ def run(c):
                     p.objs[k % n].append_to_family(s, auto_indent=True)
             except BaseException:
                 pass
-            p.commit()
+            if c.get("extra_commit", True):
+                p.commit()
         return {"text": p.get_text(), "dump": _dump(p), "raised": None}
     except BaseException as e:
         return {"raised": type(e).__name__}
